@@ -47,7 +47,12 @@ func verifMSymTup(name string) verifMTup {
 		t.u = vt.Pick(name+".u", 2)
 	}
 	if vt.ParamInt("ctx", 0) != 0 {
-		t.x = vt.Pick(name+".x", 2)
+		if vt.ParamInt("ctx", 0) == 2 {
+			t.c = vt.Choose(name+".cf", 2)
+			t.x = vt.Choose(name+".x", 3) // nil | {} | {"k": "v"} (forked: the message renderer needs a concrete shape)
+		} else {
+			t.x = vt.Pick(name+".x", 2) // nil | {}
+		}
 	}
 	return t
 }
@@ -62,7 +67,7 @@ func (t verifMTup) record(store string) *storage.TupleRecord {
 		ConditionName: verifMCond(t.c),
 	}
 	if t.c != 0 && t.x != 0 {
-		r.ConditionContext = &structpb.Struct{}
+		r.ConditionContext = verifMCtx(t.x)
 	}
 	return r
 }
@@ -72,10 +77,18 @@ func (t verifMTup) writeKey() *openfgav1.TupleKey {
 	if t.c != 0 {
 		tk.Condition = &openfgav1.RelationshipCondition{Name: verifMCond(t.c)}
 		if t.x != 0 {
-			tk.Condition.Context = &structpb.Struct{}
+			tk.Condition.Context = verifMCtx(t.x)
 		}
 	}
 	return tk
+}
+
+// verifMCtx: rendering 1 is the empty context, rendering 2 a context with one field.
+func verifMCtx(x int) *structpb.Struct {
+	if x == 2 {
+		return &structpb.Struct{Fields: map[string]*structpb.Value{"k": structpb.NewStringValue("v")}}
+	}
+	return &structpb.Struct{}
 }
 
 func (t verifMTup) deleteKey() *openfgav1.TupleKeyWithoutCondition {
@@ -154,7 +167,7 @@ func verifMReference(pre, dels, wrs []verifMTup, ignDup, ignMiss bool) (invalid,
 	exists := func(t verifMTup) (found, sameCond bool) {
 		for _, p := range pre {
 			if p.sameKey(t) {
-				found, sameCond = true, p.c == t.c
+				found, sameCond = true, p.c == t.c && (p.c == 0 || (p.x == 2) == (t.x == 2)) // nil and {} are the same context
 			}
 		}
 		return
